@@ -39,14 +39,20 @@ func (c *checker) pairwiseLogMatching(seq uint64, where string) {
 					// known finding S3a: the side that contradicts the committed history keeps the
 					// entry below a snapshot it *installed* from a leader (a gap-tolerant store is not
 					// emptied when the log does not continue the snapshot)
-					if g := c.G[k]; g != nil {
-						for _, side := range []struct {
-							n string
-							e sim.Ent
-						}{{names[i], ea}, {names[j], eb}} {
-							if (side.e.T != g.term || side.e.P != g.payload) && k <= c.srv[side.n].installedMax {
-								sig = "stale-entry-under-installed-snapshot"
-							}
+					for _, side := range []struct {
+						n    string
+						e, o sim.Ent
+					}{{names[i], ea, eb}, {names[j], eb, ea}} {
+						stale := false
+						if g := c.G[k]; g != nil {
+							stale = side.e.T != g.term || side.e.P != g.payload
+						} else {
+							// nothing is known committed at k (a user restore jumped over it): of two
+							// entries below a common later entry the one with the lower term is the stale one
+							stale = side.e.T < side.o.T
+						}
+						if stale && k <= c.srv[side.n].installedMax {
+							sig = "stale-entry-under-installed-snapshot"
 						}
 					}
 					c.violate("C04", sig, seq, "%s: %s and %s both hold (index %d, term %d) but differ at index %d: (term %d, %q) vs (term %d, %q)", where, names[i], names[j], top, a.logs[top].T, k, ea.T, ea.P, eb.T, eb.P)
